@@ -122,6 +122,36 @@ func c11Extra(c *Check) {
 		nWake++
 		wk = describe(bo.Y)
 	})
+	if nWake == 0 {
+		// the division sits in an arithmetic helper of the package (ceilDiv(a, b)): the divisor is the
+		// argument TimeUntilSend passes for the helper's divisor parameter
+		for _, ci := range callsIn(wake, func(ci ssa.CallInstruction) bool {
+			g := staticCallee(ci)
+			return g != nil && fnPkg(g) != nil && fnPkg(g).Pkg.Path() == pCommon && len(g.Blocks) > 0
+		}) {
+			g := staticCallee(ci)
+			seenPrm := map[int]bool{}
+			allInstrs(g, func(in ssa.Instruction) {
+				bo, ok := in.(*ssa.BinOp)
+				if !ok || bo.Op != token.QUO || !isIntType(bo.Type()) {
+					return
+				}
+				prm, ok := resolve(bo.Y).(*ssa.Parameter)
+				if !ok {
+					return
+				}
+				for i, q := range g.Params {
+					if q == prm && !seenPrm[i] {
+						seenPrm[i] = true
+						if arg := c03ArgAt(ci, i); arg != nil {
+							nWake++
+							wk = describe(arg)
+						}
+					}
+				}
+			})
+		}
+	}
 	if nAccr != 1 || nWake != 1 {
 		c.Undecided("C11.R5:bandwidth-source", r5, p.Pos(budget.Pos()), fmt.Sprintf("expected one accrual multiplication in Budget and one wake-up division in TimeUntilSend, found %d and %d: pacer shape not recognised", nAccr, nWake))
 	} else {
